@@ -13,8 +13,8 @@ def run(tier, seed):
     workers = 6 if quick else 14
     cases = []
     repl = [] if quick else [("Lens = {0, 7, 8, 12, 16, 20, 21, 24, 32, 34, 36}", "Lens = {0, 7, 8, 9, 11, 12, 13, 16, 19, 20, 21, 23, 24, 25, 28, 31, 32, 33, 34, 36, 40}"),
-                             ("MaxAvail = 37", "MaxAvail = 42"),
-                             ('Entries = {"payload", "skip", "t0", "t3", "t8"}', 'Entries = {"payload", "skip", "t0", "t1", "t2", "t3", "t8"}')]
+                             ("Avails <- QuickAvails", "Avails <- AllAvails"),
+                             ("Entries <- QuickEntries", "Entries <- AllEntries")]
     r = tlc("MC_RtrWire", cfg_with(wd, "MC_RtrWire.cfg", "wire.cfg", repl), workers=workers, xmx="12g", timeout=5400)
     tlc_must_hold(r, "RtrWire")
     vlib.require_coverage(r, ["ReadSome", "ReadEof", "Dispatch", "BodyDone"], "RtrWire")
@@ -29,6 +29,17 @@ def run(tier, seed):
     s = vh(["replay", "rtrwire", path], timeout=3000)
     c.add_harness(s, "every case: bytes written by the library = layout table, read back = same item; every truncated / corrupted "
                      "header stream through the real readers with 3 chunkings, counting bytes and end-of-stream polls")
+
+    # the one reader of control PDUs that lives outside pdu.rs: the server connection reads the queries a client wrote, in whatever
+    # fragments they arrive and with notifications in between (the model and the replay are C08's, at its smallest configuration)
+    mc = os.path.join(wd, "srvconn.cfg")
+    open(mc, "w").write('CONSTANTS StreamId = 1 MaxNotify = 1 HeaderSurvives = TRUE\nCONSTANT Queries <- QueriesDef\nSPECIFICATION Spec\nVIEW view\n'
+                        'INVARIANTS AnswersInOrder NoLoss NoGarbage Complete NotifyCount Emit\nPROPERTY AllAnswered\nCHECK_DEADLOCK FALSE\n')
+    r = tlc("MC_RtrServerConn", mc, workers=workers, xmx="8g", timeout=3000)
+    tlc_must_hold(r, "RtrServerConn (queries read by the server)")
+    c.add_tlc(r, "queries written by a client, read by the server connection under every fragmentation and one notification: NoLoss NoGarbage Complete")
+    s2 = vh(["replay", "rtrconn", write_ndjson(os.path.join(wd, "srvconn.ndjson"), r.replay)], timeout=3000)
+    c.add_harness(s2, "the same against the real Server on a controlled socket: every query is read back as what was written (its answer says so)")
 
     def corrupt(cs):
         for x in cs:
